@@ -761,8 +761,8 @@ fn body(run: &Run, replay: Option<&Value>) {
     let bound2_max_n: u64 = run.tier.pick(120, 200);
     let mut gap_bounds = vec![];
     for i in 0..n_items {
-        let bound = if allocs[i] <= bound2_max_n { 2 } else { 1 };
-        let w_n = if allocs[i] > 24 { gap_workers } else { 1 };
+        let bound = if allocs[i] <= bound2_max_n && !(items[i].heavy && run.tier == Tier::Quick) { 2 } else { 1 };
+        let w_n = if allocs[i] > 24 || items[i].heavy { gap_workers } else { 1 };
         gap_bounds.push(json!({"item": items[i].name, "n": allocs[i], "max_nonzero_gaps": bound}));
         for w in 0..w_n {
             jobs.push(Job { spec: json!({"k":"gap","item":i,"w":w,"W":w_n,"bound":bound}), seed: 0 });
